@@ -6,7 +6,7 @@ a statement costs 1 (rarer forms 2-3) plus the cost of the alternative chosen in
 expression slots; the simplest alternative of a slot (the most recently declared variable, the
 default condition `v == 2`, the list `[1, 2]`, `Some(v)`) is free, the others cost 1..3 (the number
 is written next to each alternative in the pool functions below).  A function definition costs
-what its body costs.  So "size <= K" holds every program of at most K statements built from the
+what its body costs (the two-parameter form 1 more), a closure 2 plus its body.  So "size <= K" holds every program of at most K statements built from the
 default expressions, and smaller programs with rarer expressions.
 
 Shape bounds: <= 2 function definitions (f(a), h(a, b)), 1..3 top-level statements, <= 3 statements
@@ -436,14 +436,14 @@ class Gen:
             cb = c._replace(ints=("p",) + tuple(v for v in c.ints if v != "p"), own=frozenset(["p"]), in_loop=False, fn="g", rec=False,
                             g=None, depth=c.depth - 1)
             outer = set(c.ints) | {"l", "s"}
-            for stmts, cost, c_after, jumped in self.seqs(cb, budget - 1, 2):
+            for stmts, cost, c_after, jumped in self.seqs(cb, budget - 2, 2):
                 tails = [(None, 0)] if jumped else closure_tails(c_after, set(c.ints))
                 for tail, ct in tails:
-                    if 1 + cost + ct > budget:
+                    if 2 + cost + ct > budget:
                         continue
                     body = list(stmts) + ([tail] if tail is not None else [])
                     captured = frozenset(var_names(body, set()) & outer)
-                    add(("Let", ("Sym", "g"), None, ("Lambda", [("p", None)], None, body)), 1 + cost + ct,
+                    add(("Let", ("Sym", "g"), None, ("Lambda", [("p", None)], None, body)), 2 + cost + ct,
                         c._replace(g=captured, frozen=c.frozen | captured))
         return out
 
@@ -453,14 +453,15 @@ class Gen:
         params = ("a",) if name == "f" else ("a", "b")
         c = Ctx(ints=tuple(reversed(params)), l=False, s=False, g=None, frozen=frozenset(), own=None, in_loop=False, fn=name,
                 funs=funs, rec=False, depth=depth)
-        for stmts, cost, c_after, jumped in self.seqs(c, budget, MAX_BLOCK):
+        base = 0 if name == "f" else 1          # the one-parameter function is free, the second form costs 1
+        for stmts, cost, c_after, jumped in self.seqs(c, budget - base, MAX_BLOCK):
             tails = [(None, 0)] if jumped else int_exprs(c_after)
             for tail, ct in tails:
-                if cost + ct > budget:
+                if base + cost + ct > budget:
                     continue
                 body = list(stmts) + ([tail] if tail is not None else [])
                 used = var_names(body, set()) & TRACKED
-                yield ("Fun", name, False, None, [], [(p, None) for p in params], None, body), cost + ct, used
+                yield ("Fun", name, False, None, [], [(p, None) for p in params], None, body), base + cost + ct, used
 
     def programs(self, budget, depth, exact=None, groups=GROUPS):
         """Every program of weighted size <= budget: (items, cost), in a fixed order.
